@@ -10,7 +10,7 @@ checks = {
  'C02': ('exploration', 'runtime monitor: reference-model oracle (independent tree-walking interpreter written from docs/) over seeded generated programs, fixed probes and an exhaustive arity/variadic/spread matrix; compares value, side-effect event log, globals, error name',
    'Each generated program is executed by the real compiler+VM (optimizer off and on) and by internal/ref; any difference in returned value, order of logged side effects, global updates or error name is a violation. Seeded sampling of a grammar; exhaustive only for the call-arity matrix. Held on the executions produced.',
    'trusts internal/ref (≈1200 lines, each rule a sentence of docs/), the shared parser and the shared value library (operators/builtins judged by C15/C19); constructs whose documented meaning is ambiguous are not generated (DESIGN.md §3 C02)', 'DESIGN.md §3 C02'),
- 'C03': ('exploration', 'runtime monitor: reference-model oracle over exhaustively enumerated try/catch/finally x loop x exit-kind trees (sizes 1-3 x 10 histories x 4 wrappers; size 4; sampled 5-9), comparing order AND multiplicity of logged body executions',
+ 'C03': ('exploration', 'runtime monitor: reference-model oracle over exhaustively enumerated try/catch/finally x loop x exit-kind trees (sizes 1-3 x 10 histories x 4 wrappers; size 4; sampled 5-9), comparing order AND multiplicity of logged body executions; every fifth program again on VMs whose previous run was cut short inside try statements (compared with a new VM); frame-limit laws judged by counters kept by the script',
    'Every tree of the stated grammar up to the size bound is rendered with a history prefix of completed try statements and a call wrapper, run on the VM (optimizer off/on) and on the reference; finally-exactly-once, pending outcome, caught-not-rethrown and no-influence-of-completed-statements are all implied by log equality. Exhaustive to the bound, sampled above.',
    'trusts internal/ref try/catch/finally (ECMAScript completion semantics) and the parser; one known finding (stale catch identifier) is matched by a narrow history predicate + log mask', 'DESIGN.md §3 C03'),
  'C16': ('exploration', 'runtime monitor: expected-by-construction oracle (the generator records the line of every call and of the failing statement) over call chains of depth 0..8 across main script and source modules; invariance under optimizer, encode/decode and k prepended lines',
@@ -22,19 +22,19 @@ checks = {
  'C18': ('fault_enumeration', 'runtime monitor: panic/crash/allocation sanitizer (recover, child-crash attribution under RLIMIT_AS, TotalAlloc delta with heap-profile site attribution) over EVERY truncation and single-byte substitution (and double-byte / length-field rewrites) of a corpus of valid v2 and v1 encodings, plus random bytes',
    'About 480 bytecode seeds and 130 object/source-file seeds are corrupted exhaustively at the byte level and fed to every decoding entry point; a panic, a crash or an allocation above 1 MiB + 256 x len(input) is a violation. Exhaustive for single-byte corruptions and truncations of the corpus, sampled beyond.',
    'inputs capped at ~8 KiB; deterministic re-encoder c18_enc.go validated against the real decoder', 'DESIGN.md §3 C18'),
- 'C19': ('exploration', 'runtime monitor: panic/crash/allocation sanitizer (recover, child-crash attribution under RLIMIT_AS, TotalAlloc delta, hang deadline for size bombs) over every builtin/stdlib callable x boundary-pool argument tuples on three call routes',
+ 'C19': ('exploration', 'runtime monitor: panic/crash/allocation sanitizer (recover, child-crash attribution under RLIMIT_AS, TotalAlloc delta, hang deadline for size bombs) over every builtin/stdlib callable x boundary-pool argument tuples on five call routes (direct Go call, CallEx on a live VM, compiled script without recovery, arguments split between normal and variadic, CallEx WITHOUT a VM); the pool holds well-formed JSON documents too',
    '282 callables (builtins, error.New, fmt/json/strings/time functions, Time/Location methods) x all tuples of length 0..2 from a 58-value pool (length 3 exhaustive where arity allows, 4..8 sampled in thorough) via direct Go call, CallEx on a live VM, and a compiled script without recovery. Result must be object xor error.',
    'gray-zone sizes (256MiB..2^40) are skipped; one 10 s deadline is used only for calls with an integer argument >= 2^40', 'DESIGN.md §3 C19'),
  'C20': ('exploration', 'runtime monitor: round-trip oracles (uGO->Go->uGO type-exact, Go->uGO->Go deep-equal), exhaustive numeric width table checked with math/big, unsupported-type and registry tables, panic monitor on every call',
    'Seeded nested values in both directions through ToObject, ToObjectAlt and ToInterface plus exhaustive tables of every Go numeric width x boundary values x nesting shapes, 68 unsupported Go types and the time/json registry types. Held on what was run.',
    'trusts canon.Value rendering, reflect.DeepEqual-style comparator in c20values.go and math/big', 'DESIGN.md §3 C20'),
- 'C04': ('exploration', 'runtime monitor: differential oracle original vs decoded vs re-decoded bytecode (value, event log, globals, error, stack-trace lines) over a constants profile and seeded generated programs with source and builtin modules',
+ 'C04': ('exploration', 'runtime monitor: differential oracle original vs decoded vs re-decoded bytecode (value, event log, globals, error, stack-trace lines) over a constants profile and seeded generated programs with source and builtin modules; every encoding is also decoded through 18 reader shapes (chunk sizes, last chunk with io.EOF) and must give the same structure',
    'Every program is compiled, encoded, decoded with the same modules, re-encoded and decoded again; the three bytecodes are run on three argument vectors and compared; encode/decode failures or panics on compiler output are violations. Held on what was run.',
    'the run of the original bytecode is the reference; canonical outcome comparison (floats by bits)', 'DESIGN.md §3 C04'),
  'C05': ('exploration', 'runtime monitor: panic sanitizer (recover + per-case watchdog + child-crash attribution) around ugo.Compile / Eval compile path, plus a structural well-formedness scanner of every returned Bytecode, over boundary enumeration, corpus mutation and random inputs x compiler-option cross product',
    'Exhaustive enumeration around every operand-width limit and nesting depths up to 2000, seeded mutations/truncations/splices of a corpus and of generated programs, random byte and token strings, each under 9 option sets (optimizer budgets, tracing, module maps, re-used symbol tables, disabled builtins). Any panic, hang (twice), nil/nil result or malformed Bytecode is a violation. Held on what was run.',
    'Go stack exhaustion beyond the explored nesting bound is out of scope; the scanner (wellFormed in c05.go) is trusted', 'DESIGN.md §3 C05'),
- 'C06': ('exploration', 'runtime monitor: host-panic sanitizer (recover() around VM.Run on its own goroutine, child-process crash attribution) + follow-up-run probes on the same VM, over an exhaustive fault x context matrix and generated faulty programs',
+ 'C06': ('exploration', 'runtime monitor: host-panic sanitizer (recover() around VM.Run on its own goroutine, child-process crash attribution) + follow-up-run probes on the same VM, over an exhaustive fault x context matrix and generated faulty programs; runs with *SyncMap globals whose operations panic under the map lock, followed by a bounded script on the same maps',
    'About 65 fault expressions (operators, indexing, calls, panicking Go callbacks and a hostile custom Object, resource exhaustion at the 2048-slot and 1024-frame edges) are placed in 13 contexts and run with recovery on; any panic reaching the harness, a nil/nil result, or a wrong follow-up run on the same VM is a violation. Exhaustive over the matrix, sampled over generated programs.',
    'Go stack exhaustion by native recursion is out of the budget; callbacks honour the Object contract', 'DESIGN.md §3 C06'),
  'C07': ('exploration', 'runtime monitor: used-VM vs new-VM differential over enumerated run histories (13 termination kinds x 4 transitions x 8 observers exhaustive, random histories up to length 6), plus canonical bytecode dump before/after',
@@ -43,7 +43,7 @@ checks = {
  'C08': ('exploration', 'Go race detector (-race build, reports collected and de-duplicated by innermost /repo frames) + solo-vs-concurrent outcome oracle + per-VM isolation probes over N in {2,8,32} VMs sharing one Bytecode',
    'Fixed programs (stateful source modules, all builtin modules with per-VM id markers, errors formatted with stack traces from several files, pooled child VMs, faults under recovery) and generated programs are run concurrently on fresh and re-used VMs, direct and decoded; zero race reports, equality with the solo outcome and an unchanged Bytecode are required. Sampled interleavings only.',
    'only interleavings the scheduler produced are observed; the harness shares only the Bytecode and atomics', 'DESIGN.md §3 C08'),
- 'C09': ('fault_enumeration', 'deterministic schedule placement through build-tag hooks (park at each named synchronisation point, perform Abort/cancel, release) + offline bounded-response checker over the recorded iteration counter, plus race-detector stress and a process-level cmd/ugo -timeout probe',
+ 'C09': ('fault_enumeration', 'deterministic schedule placement through build-tag hooks (park at each named synchronisation point, perform Abort/cancel, release) + offline bounded-response checker over the recorded iteration counter, plus race-detector stress and a process-level cmd/ugo -timeout probe; action abort+run (Abort, then a second Run parked on the VM mutex); Eval sessions must keep their variables across a cancelled fragment',
    'Every (workload kind x reachable point x occurrence x action x ordering) combination is executed; after the action returned the script may advance at most B iterations before Run/Eval.Run returns the aborted error, and the VM must run a known script afterwards. Exhaustive over the named points, sampled for the stress part.',
    'points are the ones named in MANIFEST.hooks; an Abort that completes before Run is entered is outside the statement; wall-clock only rescues runs already judged lost', 'DESIGN.md §3 C09'),
  'C10': ('exploration', 'runtime monitor: differential oracle Eval session vs fresh Eval of the concatenation for every prefix, over ALL 2^(n-1) cuttings of generated top-level statement lists (n<=7) and sampled cuttings above, three compiler option sets',
@@ -52,7 +52,7 @@ checks = {
  'C11': ('exploration', 'runtime monitor: differential oracle v2 program vs the same program down-converted to the version-1 layout by the harness and decoded by the repository (value, log, globals, error, trace lines); down-converter self-validated by its inverse on every program',
    'Seeded generated programs rich in jumps/try statements (and fixed probes) are re-laid into the v1 operand widths with relocated targets, given a v1 header, decoded and run against the original on three argument vectors. Held on what was run; programs not representable in v1 are skipped and counted.',
    'trusts encoder/opv1.OpcodeOperands as the v1 layout and the harness relayout (checked by round trip against the original bytes)', 'DESIGN.md §3 C11'),
- 'C12': ('exploration', 'runtime monitor: reference-model oracle (module semantics of internal/ref) + cross-configuration agreement (optimizer off/on x direct/encoded) over generated import graphs and fixed probes; static enumeration of import cycles and unknown modules; builtin-module privacy probes',
+ 'C12': ('exploration', 'runtime monitor: reference-model oracle (module semantics of internal/ref) + cross-configuration agreement (optimizer off/on x direct/encoded) over generated import graphs and fixed probes; static enumeration of import cycles and unknown modules; builtin-module privacy probes; FileImporter graphs in one and in several directories (expected values by construction); literal at-most-once cases (two known findings)',
    'Event log with one entry per module-body execution plus state probes through every import site must match the reference under 4 configurations; cycles of length 1..4 at 5 positions x 2 shapes and unknown names must be compile-time errors; builtin module values written by one VM are never read by another.',
    'trusts internal/ref module rules; generated modules export accessors (documented copy-on-store makes embedded containers differ by design)', 'DESIGN.md §3 C12'),
  'C13': ('exploration', 'runtime monitor: instrumented ugo.BuiltinObjects (counting wrappers observe every call incl. the optimizer\'s compile-time VM) + static GETBUILTIN scan of all functions + expectation from an independent lexical resolver, over generated programs x disabled sets and Eval sessions',
@@ -61,7 +61,7 @@ checks = {
  'C14': ('exploration', 'runtime monitor: differential oracle in-script call vs Invoker call (pooled / un-pooled / re-used) of every script-function call of generated programs, plus a 16-VM concurrent part, all under the race detector',
    'Every call is written CALL(f, args...); run A binds CALL to a script function, run B to a Go callback using an Invoker; value, event log, globals and errors must be identical. Nested child VMs, variadic/spread calls, closures over captured state, throwing and importing functions are generated.',
    'run A is the reference; lenient Go-side arity is not compared (as the statement says)', 'DESIGN.md §3 C14'),
- 'C15': ('exploration', 'runtime monitor: algebraic-law + reference-evaluator oracle over exhaustive boundary-pool pairs, panic monitor (recover) on direct and VM routes',
+ 'C15': ('exploration', 'runtime monitor: algebraic-law + reference-evaluator oracle over exhaustive boundary-pool pairs, panic monitor (recover) on three routes: direct BinaryOp, script with arguments, script with literal operands under default compiler options (compile-time folding)',
    'Every ordered pair of a ~75-value boundary pool x every operator is executed on the real Object.BinaryOp/Equal and on a VM; laws, an independent documented-conversion evaluator and a panic monitor judge each result. Exhaustive over the pool, sampled (seeded) over random 64-bit operands in thorough. Held-on-what-was-run, not a proof.',
    'trusts the small evaluator in internal/props/c15.go and Go arithmetic; relational cells where the document is silent are only subject to the laws', 'DESIGN.md §3 C15'),
 }
